@@ -357,12 +357,16 @@ func (in *inliner) simpleBody(fd *ast.FuncDecl, f *types.Func, anyReturns bool) 
 	if !ok {
 		return false
 	}
-	for p := range params {
-		if assignedIn(in.info, fd.Body, p) {
-			return false
-		}
+	if r := sig.Recv(); r != nil && assignedIn(in.info, fd.Body, r) {
+		return false
 	}
 	if anyReturns {
+		// the multi-return expansions substitute parameters: they need them unassigned
+		for p := range params {
+			if assignedIn(in.info, fd.Body, p) {
+				return false
+			}
+		}
 		return true
 	}
 	if nret > 1 {
@@ -429,11 +433,73 @@ func (in *inliner) expand(call *ast.CallExpr, fd *ast.FuncDecl, f *types.Func, e
 		}
 		return true
 	})
+	// in-out parameters: x = h(…, x, …) (or x := h(y)) where h updates its parameter p and returns it — p simply is x
+	inout := map[*types.Var]types.Object{}
+	inoutIdx := map[int]bool{}
+	if in.curTok == token.DEFINE || in.curTok == token.ASSIGN {
+		if n := len(fd.Body.List); n > 0 {
+			if r, isRet := fd.Body.List[n-1].(*ast.ReturnStmt); isRet && len(r.Results) == len(in.curLHS) {
+				for i, res := range r.Results {
+					rid, isRID := unparen(res).(*ast.Ident)
+					lid, isLID := in.curLHS[i].(*ast.Ident)
+					if !isRID || !isLID || lid.Name == "_" {
+						continue
+					}
+					p, isP := in.info.Uses[rid].(*types.Var)
+					if !isP || !assignedIn(in.info, fd.Body, p) || inClosure[p] {
+						continue
+					}
+					pi := -1
+					for j := 0; j < sig.Params().Len(); j++ {
+						if sig.Params().At(j) == p {
+							pi = j
+						}
+					}
+					if pi < 0 {
+						continue
+					}
+					lobj := objOf(in.info, lid)
+					if lobj == nil {
+						continue
+					}
+					// an existing variable is only taken over when it is the very argument (its old value is the parameter's)
+					if in.curTok == token.ASSIGN && !sameVar(in.info, call.Args[pi], lobj) {
+						continue
+					}
+					// the variable must not be passed for another parameter as well
+					other := false
+					for j, a := range call.Args {
+						if j != pi && sameVar(in.info, a, lobj) {
+							other = true
+						}
+					}
+					if other {
+						continue
+					}
+					inout[p] = lobj
+					inoutIdx[i] = true
+				}
+			}
+		}
+	}
 	bind := func(p *types.Var, arg ast.Expr) bool {
 		if p.Name() == "_" || p.Name() == "" {
 			return true
 		}
-		if in.simpleArg(arg) && !inClosure[p] {
+		if lobj, isIO := inout[p]; isIO {
+			if !sameVar(in.info, arg, lobj) {
+				id := &ast.Ident{NamePos: call.Pos(), Name: lobj.Name()}
+				if in.curTok == token.DEFINE {
+					in.info.Defs[id] = lobj
+				} else {
+					in.info.Uses[id] = lobj
+				}
+				pre = append(pre, &ast.AssignStmt{Lhs: []ast.Expr{id}, TokPos: call.Pos(), Tok: in.curTok, Rhs: []ast.Expr{arg}})
+			}
+			return true
+		}
+		assigned := assignedIn(in.info, fd.Body, p)
+		if in.simpleArg(arg) && !inClosure[p] && !assigned {
 			subst[p] = arg
 			return true
 		}
@@ -477,6 +543,9 @@ func (in *inliner) expand(call *ast.CallExpr, fd *ast.FuncDecl, f *types.Func, e
 		}
 	}
 	cp := &copier{info: in.info, subst: subst, rename: map[types.Object]types.Object{}}
+	for p, lobj := range inout {
+		cp.rename[p] = lobj
+	}
 	body := fd.Body.List
 	// x := h(…) where h returns one of its own locals: that local simply is x from its first definition on (no copy is left
 	// behind that would hide how x is built up)
@@ -547,7 +616,7 @@ func (in *inliner) expand(call *ast.CallExpr, fd *ast.FuncDecl, f *types.Func, e
 			}
 		} else {
 			for i, r := range ret.Results {
-				if renamed[i] {
+				if renamed[i] || inoutIdx[i] {
 					results = append(results, nil)
 					continue
 				}
@@ -1482,6 +1551,34 @@ func (in *inliner) expandMulti(as *ast.AssignStmt, call *ast.CallExpr, fd *ast.F
 	var elseify func(list []ast.Stmt) []ast.Stmt
 	elseify = func(list []ast.Stmt) []ast.Stmt {
 		for i, s := range list {
+			// switch { case …: return A; … } rest   ≡   the same switch with rest as its default clause
+			if sw, isSw := s.(*ast.SwitchStmt); isSw && i < len(list)-1 {
+				allRet, hasDefault := len(sw.Body.List) > 0, false
+				for _, cl := range sw.Body.List {
+					cc := cl.(*ast.CaseClause)
+					if cc.List == nil {
+						hasDefault = true
+					}
+					if len(cc.Body) == 0 {
+						allRet = false
+						continue
+					}
+					if _, isR := cc.Body[len(cc.Body)-1].(*ast.ReturnStmt); !isR {
+						allRet = false
+					}
+					for _, st := range cc.Body {
+						if _, isF := st.(*ast.BranchStmt); isF {
+							allRet = false
+						}
+					}
+				}
+				if allRet && !hasDefault {
+					cpSw := *sw
+					def := &ast.CaseClause{Case: list[i+1].Pos(), Body: elseify(list[i+1:])}
+					cpSw.Body = &ast.BlockStmt{Lbrace: sw.Body.Lbrace, List: append(append([]ast.Stmt{}, sw.Body.List...), def), Rbrace: sw.Body.Rbrace}
+					return append(append([]ast.Stmt{}, list[:i]...), &cpSw)
+				}
+			}
 			ifs, isIf := s.(*ast.IfStmt)
 			if !isIf || ifs.Else != nil || len(ifs.Body.List) == 0 || i == len(list)-1 {
 				continue
